@@ -294,6 +294,8 @@ func TestReplay(t *testing.T) {
 		Class    string   `json:"class"`
 		Script   *Script  `json:"script"`
 		C11      *C11Case `json:"c11_case"`
+		// ClassOnly: a corpus entry whose (minimised) script ends before the system settles: only the recorded class counts
+		ClassOnly bool `json:"corpus_class_only"`
 	}
 	must(json.Unmarshal(b, &rf))
 	if rf.C11 != nil {
@@ -338,7 +340,7 @@ func TestReplay(t *testing.T) {
 		def.Post(t, rf.Script, ors, res)
 	}
 	ws.add(rf.Script, res)
-	corpus := os.Getenv("KAISIM_CORPUS") != ""
+	corpus := os.Getenv("KAISIM_CORPUS") != "" && !rf.ClassOnly
 	var known []KnownFinding
 	if corpus {
 		known = loadKnown()
